@@ -651,6 +651,8 @@ func listPlans(c *engine.Ctx, prop string) []listPlan {
 	}
 	// segments that start with a dot (hidden-file style names) on the fs layouts
 	ud := newListUniverse(".a/", 3, 3, "a", 9)
+	ud.keys = []string{".a", ".a/.a/a", ".a/a", ".a/a/.a", "..a", "..a/a", "a", "a.", "a/.a"}
+	ud.prefixes = append(ud.prefixes, ".a/.", ".a/a", ".a/.a/", ".a/a/", "..a", "..a/", "a/.a")
 	for _, k := range []drv.Kind{drv.MultiMem, drv.SingleMem} {
 		plans = append(plans, listPlan{cfg: drv.Config{Kind: k}, u: ud, depth: depth - 1})
 	}
